@@ -137,3 +137,55 @@ func c10Volume(r *fw.Run, transport string, frame, calls int) {
 	r.Count("volume_connections", 1)
 	r.Case(fw.Hash("volume", transport, fmt.Sprint(frame, calls)), true)
 }
+
+// c10HeldOpen: the service ends a connection (a frame that is not a call, a handler that fails) while the client neither
+// closes nor half-closes its socket. Once the client has seen the end of stream, the connection's resources must be
+// released although the client's socket is still open: the active count returns to 0.
+func c10HeldOpen(r *fw.Run, g *Rig, tr string) {
+	tails := []string{"[1,2]\x00", "nul\x00", "{\"method\":5}\x00", "\x00", "{\"method\":\"org.example.script.F\",\"parameters\":{\"id\":\"hf\",\"fail\":true}}\x00"}
+	var held []net.Conn
+	defer func() {
+		for _, c := range held {
+			c.Close()
+		}
+	}()
+	if !g.WaitIdle(20 * time.Second) {
+		return // judged elsewhere
+	}
+	for i, tail := range tails {
+		c, _, err := dialRaw(g.Net, g.Dial)
+		if err != nil {
+			r.Inconclusive("held-open: dial: %v", err)
+			return
+		}
+		held = append(held, c)
+		c.SetDeadline(time.Now().Add(20 * time.Second))
+		if _, err := c.Write([]byte("{\"method\":\"org.varlink.service.GetInfo\"}\x00" + tail)); err != nil {
+			r.Inconclusive("held-open: write: %v", err)
+			return
+		}
+		sawEOF := false
+		buf := make([]byte, 4096)
+		for {
+			_, err := c.Read(buf)
+			if err != nil {
+				if ne, ok := err.(net.Error); !ok || !ne.Timeout() {
+					sawEOF = true
+				}
+				break
+			}
+		}
+		if !sawEOF {
+			r.Violation("C10 stall", fmt.Sprintf("transport %s: after %q the service neither answered further nor ended the connection within 20 s", tr, tail), map[string]interface{}{"what": "held open", "tail": tail})
+			continue
+		}
+		r.Count("connections_held_open_after_the_service_ended_them", 1)
+		_ = i
+	}
+	if !g.WaitIdle(15 * time.Second) {
+		r.Violation("C10 not-released", fmt.Sprintf("transport %s: the service ended %d connections (the clients saw the end of the stream) but still counts %d of them as active 15 s later, while the clients keep their sockets open", tr, len(held), g.Svc.VerifActive()),
+			map[string]interface{}{"what": "held open after the service ended the connection"})
+		g.tainted = true
+	}
+	g.Log.Take()
+}
